@@ -493,6 +493,131 @@ Definition decode_into (o : obj) (data : bytes) : res obj :=
   | OIllegal _ => Ok o
   end.
 
+(* ---- the object after a decode() that RAISES ------------------------------------------------------
+   [decode_partial o data] = the attributes of the instance after self.decode(data) raised: what was
+   assigned before the raising statement stays assigned (statement order as in the source). *)
+
+Fixpoint read_words_prefix (data : bytes) (n : Z) : list Z :=
+  if n <=? 0 then [] else
+  match data with
+  | h :: l :: t => rd_be16 h l :: read_words_prefix t (n - 1)
+  | _ => []
+  end.
+Fixpoint take_idx_prefix (n : nat) (l : bytes) : list Z :=
+  match n with
+  | O => []
+  | S k => match l with [] => [] | x :: t => Z.of_N x :: take_idx_prefix k t end
+  end.
+Fixpoint dec_read_subreqs_p (n : nat) (data : bytes) (count : Z) : list frec :=
+  match n with
+  | O => []
+  | S k =>
+      match upk [FB; FH; FH; FH] (zslice data count (count + 7)) with
+      | Ok [rt; f; rn; rl] =>
+          let rest := dec_read_subreqs_p k data (count + 7) in
+          if rt =? 6 then mk_frec f rn [] rl 1 :: rest else rest
+      | _ => []
+      end
+  end.
+Fixpoint dec_read_subresps_p (fuel : nat) (data : bytes) (count bc : Z) (acc : list frec) : list frec :=
+  if count <? bc then
+    match fuel with
+    | O => acc
+    | S f =>
+        match upk [FB; FB] (zslice data count (count + 2)) with
+        | Ok [rl; rt] =>
+            let count' := count + rl + 1 in
+            let rd := zslice data (count' - rl + 1) count' in
+            dec_read_subresps_p f data count' bc (if rt =? 6 then acc ++ [mk_frec 0 0 rd (zlen rd / 2) rl] else acc)
+        | _ => acc
+        end
+    end
+  else acc.
+Fixpoint dec_write_subs_p (fuel : nat) (data : bytes) (count bc : Z) (acc : list frec) : list frec :=
+  if count <? bc then
+    match fuel with
+    | O => acc
+    | S f =>
+        match upk [FB; FH; FH; FH] (zslice data count (count + 7)) with
+        | Ok [rt; fl; rn; rl] =>
+            let response_length := rl * 2 in
+            let count' := count + response_length + 7 in
+            let rd := zslice data (count' - response_length) count' in
+            dec_write_subs_p f data count' bc (if rt =? 6 then acc ++ [mk_frec fl rn rd rl (zlen rd + 1)] else acc)
+        | _ => acc
+        end
+    end
+  else acc.
+Fixpoint dec_mei_objs_p (fuel : nat) (rest : bytes) (info : list (Z * mval)) : list (Z * mval) :=
+  match rest with
+  | oid :: olen :: t =>
+      match fuel with
+      | O => info
+      | S f => dec_mei_objs_p f (skipn (N.to_nat olen) t) (mei_insert info (Z.of_N oid) (firstn (N.to_nat olen) t))
+      end
+  | _ => info
+  end.
+
+Definition decode_partial (o : obj) (data : bytes) : obj :=
+  match o with
+  | ORegsRsp c regs =>
+      match data0 data with
+      | Raise _ => o
+      | Ok bc =>
+          if cls_eqb c ReadWriteMultipleRegistersResponse
+          then ORegsRsp c (regs ++ read_words_prefix (skipn 1 data) (range_len 1 bc 2))
+          else ORegsRsp c (read_words_prefix (skipn 1 data) (range_len 1 (bc + 1) 2))
+      end
+  | OWriteRegsReq _ _ _ _ =>
+      match upk [FH; FH; FB] (bslice data 0 5) with
+      | Ok [a; count; bc] => OWriteRegsReq a (read_words_prefix (skipn 5 data) (range_len 5 (count * 2 + 5) 2)) count bc
+      | _ => o
+      end
+  | ORWReq _ _ _ _ _ _ =>
+      match upk [FH; FH; FH; FH; FB] (bslice data 0 9) with
+      | Ok [ra; rc; wa; wc; wbc] => ORWReq ra rc wa (read_words_prefix (skipn 9 data) (range_len 9 (wbc + 9) 2)) wc wbc
+      | _ => o
+      end
+  | OEvLogRsp st mc ec evs =>
+      match data0 data with
+      | Raise _ => o
+      | Ok length =>
+          match upk [FH] (bslice data 1 3) with
+          | Ok [s] =>
+              let st' := s =? status_ready in
+              match upk [FH] (bslice data 3 5) with
+              | Ok [e] =>
+                  match upk [FH] (bslice data 5 7) with
+                  | Ok [m] => OEvLogRsp st' m e (take_idx_prefix (Z.to_nat (range_len 7 (length + 1) 1)) (skipn 7 data))
+                  | _ => OEvLogRsp st' mc e evs
+                  end
+              | _ => OEvLogRsp st' mc ec evs
+              end
+          | _ => o
+          end
+      end
+  | OFileRecs c _ =>
+      match data0 data with
+      | Raise _ => OFileRecs c []
+      | Ok bc =>
+          if cls_eqb c ReadFileRecordRequest then OFileRecs c (dec_read_subreqs_p (Z.to_nat (range_len 1 bc 7)) data 1)
+          else if cls_eqb c ReadFileRecordResponse then OFileRecs c (dec_read_subresps_p (Z.to_nat bc) data 1 bc [])
+          else OFileRecs c (dec_write_subs_p (Z.to_nat bc) data 1 bc [])
+      end
+  | OFifoRsp _ =>
+      match upk [FH; FH] (bslice data 0 4) with
+      | Ok [_; count] => OFifoRsp (read_words_prefix (skipn 4 data) (range_len 0 (count - 4) 1))
+      | _ => OFifoRsp []
+      end
+  | OMeiRsp _ _ _ _ _ _ _ sl =>
+      match upk [FB; FB; FB; FB; FB; FB] (bslice data 0 6) with
+      | Ok [sub; rc; cf; more; next; nobj] =>
+          OMeiRsp sub rc cf more next nobj (dec_mei_objs_p (length data) (skipn 6 data) []) sl
+      | _ => o
+      end
+  | _ => o          (* every other class assigns only after its last raising statement *)
+  end.
+
 (* cls(): the default-constructed instance the factory decodes into *)
 Definition fresh (c : cls) : obj :=
   match c with
